@@ -13,6 +13,7 @@ import (
 	"sync"
 	"time"
 
+	"github.com/scionproto/scion/pkg/addr"
 	"github.com/scionproto/scion/pkg/snet"
 	spath "github.com/scionproto/scion/pkg/snet/path"
 
@@ -116,14 +117,18 @@ func (h *harness) runE2EOne(id int, c *tcase, sub, rsub int, rng *rand.Rand) e2e
 	cl := &client.SCIONClient{Log: slog.New(lg)}
 	cl.Auth.Enabled = c.Cauth
 	cl.Auth.DRKeyFetcher = scion.NewFetcher(h.dc)
-	local := udp.UDPAddr{IA: iaC, Host: &net.UDPAddr{IP: h.w.ipC}}
+	cia := iaC
+	if c.cia != 0 {
+		cia = c.cia // (key regime with epochs: a client ISD-AS of this exchange's own)
+	}
+	local := udp.UDPAddr{IA: cia, Host: &net.UDPAddr{IP: h.w.ipC}}
 	remote := udp.UDPAddr{IA: iaS, Host: &net.UDPAddr{IP: h.w.ipS[mode], Port: h.w.srvPort}}
 	var dp snet.DataplanePath = spath.Empty{}
 	if c.Path.Kind != "empty" {
 		p, _ := buildPath(c.Path, rng)
 		dp = spath.SCION{Raw: pathBytes(p)}
 	}
-	sp := spath.Path{Src: iaC, Dst: iaS, DataplanePath: dp, NextHop: udpAddr(h.w.ipP, portOf(R))}
+	sp := spath.Path{Src: cia, Dst: iaS, DataplanePath: dp, NextHop: udpAddr(h.w.ipP, portOf(R))}
 	const callTimeout = 3 * time.Second
 	tStart := time.Now() // the call's deadline is not before tStart + callTimeout
 	ctx, cancel := context.WithTimeout(context.Background(), callTimeout)
@@ -226,6 +231,9 @@ func (h *harness) runE2EOne(id int, c *tcase, sub, rsub int, rng *rand.Rand) e2e
 	wire := append([]byte{}, buf[:n]...)
 	run.reqWire = append([]byte{}, wire...)
 	pm := portMap{srv: h.w.srvPort, cp: caddr.Port, oth: -1}
+	if c.cia != 0 {
+		pm.ias = map[addr.IA]string{cia: "iaC"}
+	}
 	qpl := "ntp"
 	if c.Cauth {
 		switch c.Ak {
